@@ -189,6 +189,20 @@ def mechanical_rewrites(text: str, toks: List[Tok], r12: Optional[str] = None):
             edits.append((toks[close].start, toks[close].end,
                           "; let mut vx_r%d = true; loop\n/*@ALL%d@*/\n{\n/*@ALLPRE@*/\nmatch vx_it%d.next() { Some(vx_x) => {\n/*@ALLBODY@*/\nif !vx_f%d(vx_x) { vx_r%d = false; break; } } None => { break; } } } vx_r%d }"
                           % (idx, idx, idx, idx, idx, idx), "R11c"))
+        # R16: RECV.nth(K), K an integer literal  ->  Iterator::nth's definition (advance K times, stop at the first None, then next())
+        #      unrolled for the literal K
+        if t.kind == "ident" and t.text == "nth" and i >= 1 and toks[i - 1].text == "." and i + 3 < n and toks[i + 1].text == "(" \
+                and toks[i + 2].kind == "num" and toks[i + 3].text == ")" and re.fullmatch(r"\d+", toks[i + 2].text):
+            kk = int(toks[i + 2].text)
+            if kk > 4:
+                raise SpliceError("R16: nth(%d) not unrolled" % kk)
+            k = chain_start(toks, i - 2)
+            idx = sum(1 for e in edits if e[3] == "R16a")
+            edits.append((toks[k].start, toks[k].start, "{ let mut vx_nt%d = " % idx, "R16a"))
+            tail = "vx_nt%d.next()" % idx
+            for _ in range(kk):
+                tail = "match vx_nt%d.next() { None => None, Some(_) => %s }" % (idx, tail)
+            edits.append((toks[i - 1].start, toks[i + 3].end, "; " + tail + " }", "R16b"))
     return edits
 
 
